@@ -67,20 +67,17 @@ Definition core (parent : option (list (pystr * pystr))) (level : nat) (t : ftre
       else [62] ++ nl ++ flat_map (to_xml (Some (n_nsmap d)) (S level) false) kids
            ++ indent level ++ s "</" ++ tag_of d ++ [62]
   | Some c =>
-      [62] ++ escape c ++ flat_map (to_xml (Some (n_nsmap d)) (S level) false) kids
+      [62] ++ escape_text c ++ flat_map (to_xml (Some (n_nsmap d)) (S level) false) kids
       ++ s "</" ++ tag_of d ++ [62]
   end.
 
-Lemma escape_nil : escape [] = [].
-Proof. reflexivity. Qed.
-
 Lemma to_xml_core parent level t :
   to_xml parent level false t =
-  indent level ++ [60] ++ core parent level t ++ nl ++ escape (otext (n_tail (ft_d t))).
+  indent level ++ [60] ++ core parent level t ++ nl ++ escape_text (otext (n_tail (ft_d t))).
 Proof.
   destruct t as [d kids]. cbn [to_xml core ft_d]. fold (indent level).
   destruct (n_content d) as [c|]; [|destruct kids as [|k r]]; cbn [is_nil];
-    destruct (n_tail d) as [tl|]; cbn [otext]; rewrite ?escape_nil, ?app_nil_r;
+    destruct (n_tail d) as [tl|]; cbn [otext]; rewrite ?escape_text_nil, ?app_nil_r;
     cbn [flat_map]; rewrite <- ?app_assoc; cbn [app]; rewrite <- ?app_assoc; reflexivity.
 Qed.
 
@@ -88,27 +85,27 @@ Qed.
 Fixpoint kids_str (level : nat) (d : nd) (ks : list ftree) : pystr :=
   match ks with
   | [] => []
-  | k :: r => [60] ++ core (Some (n_nsmap d)) (S level) k ++ escape (kid_tail level d k (is_nil r))
+  | k :: r => [60] ++ core (Some (n_nsmap d)) (S level) k ++ escape_text (kid_tail level d k (is_nil r))
               ++ kids_str level d r
   end.
 
 Lemma spaces_plain n : forallb plain_char (spaces n) = true.
 Proof. unfold spaces. induction n; simpl; [reflexivity|exact IHn]. Qed.
 
-Lemma escape_indent n : escape (indent n) = indent n.
-Proof. apply escape_plain, spaces_plain. Qed.
+Lemma escape_indent n : escape_text (indent n) = indent n.
+Proof. apply escape_text_plain, spaces_plain. Qed.
 
-Lemma escape_nl : escape nl = nl.
+Lemma escape_nl : escape_text nl = nl.
 Proof. reflexivity. Qed.
 
-Lemma escape_close_indent level d : escape (close_indent level d) = close_indent level d.
+Lemma escape_close_indent level d : escape_text (close_indent level d) = close_indent level d.
 Proof. unfold close_indent. destruct (n_content d); [reflexivity | apply escape_indent]. Qed.
 
 Lemma escape_kid_tail level d k last :
-  escape (kid_tail level d k last) =
-  nl ++ escape (otext (n_tail (ft_d k))) ++ (if last then close_indent level d else indent (S level)).
+  escape_text (kid_tail level d k last) =
+  nl ++ escape_text (otext (n_tail (ft_d k))) ++ (if last then close_indent level d else indent (S level)).
 Proof.
-  unfold kid_tail. rewrite !escape_app, escape_nl.
+  unfold kid_tail. rewrite !escape_text_app, escape_nl.
   destruct last; [rewrite escape_close_indent | rewrite escape_indent]; reflexivity.
 Qed.
 
@@ -230,7 +227,7 @@ Proof. reflexivity. Qed.
 
 (** text runs of the output are escaped strings followed by a less-than sign *)
 Lemma ptext_run x c r :
-  c <> 33 -> ptext 0 TNorm (escape x ++ 60 :: c :: r) = Some (x, 60 :: c :: r).
+  c <> 33 -> ptext 0 TNorm (escape_text x ++ 60 :: c :: r) = Some (x, 60 :: c :: r).
 Proof.
   intro H. apply ptext_escape. right. exists (c :: r). split; [reflexivity | apply sw_cdata, H].
 Qed.
@@ -269,8 +266,8 @@ Proof.
         apply name_start_bounds in Hc2. lia. }
     destruct Hnext as (c2 & r2 & En & Hc2).
     rewrite Ec. cbn [app]. rewrite (pkids_elem f c _ Hc).
-    change (c :: cr ++ escape (kid_tail level d K (is_nil r)) ++ kids_str level d r ++ s "</" ++ rest)
-      with ((c :: cr) ++ escape (kid_tail level d K (is_nil r)) ++ kids_str level d r ++ s "</" ++ rest).
+    change (c :: cr ++ escape_text (kid_tail level d K (is_nil r)) ++ kids_str level d r ++ s "</" ++ rest)
+      with ((c :: cr) ++ escape_text (kid_tail level d K (is_nil r)) ++ kids_str level d r ++ s "</" ++ rest).
     rewrite <- Ec. rewrite (HPk (Some (n_nsmap d)) (S level) _ f) by lia.
     rewrite En, (ptext_run _ c2 r2 Hc2), <- En.
     rewrite (IH HLr HPr f) by lia.
@@ -278,7 +275,7 @@ Proof.
 Qed.
 
 (** * Elements *)
-Lemma ptext_run_end x r : ptext 0 TNorm (escape x ++ s "</" ++ r) = Some (x, s "</" ++ r).
+Lemma ptext_run_end x r : ptext 0 TNorm (escape_text x ++ s "</" ++ r) = Some (x, s "</" ++ r).
 Proof. change (s "</" ++ r) with (60 :: 47 :: r). apply ptext_run. lia. Qed.
 
 Lemma kids_str_head level d kids Y :
@@ -319,10 +316,10 @@ Proof.
       pose proof (kids_flat level d kids (s "</" ++ X) Hne) as KF.
       unfold close_indent in KF. rewrite Ec in KF. cbn [app] in KF. rewrite KF. clear KF.
       destruct (kids_str_head level d kids (s "</" ++ X) Hne HLk) as (c2 & r2 & Eh & Hc2).
-      rewrite <- (escape_indent (S level)), app_assoc, <- escape_app.
+      rewrite <- (escape_indent (S level)), app_assoc, <- escape_text_app.
       rewrite Eh, (ptext_run _ c2 r2 Hc2), <- Eh.
       rewrite (pkids_print level d kids X HLk HP f) by lia.
-      subst X. rewrite pendtag_ok. rewrite ?escape_app, ?escape_indent, ?escape_nl. reflexivity.
+      subst X. rewrite pendtag_ok. rewrite ?escape_text_app, ?escape_indent, ?escape_nl. reflexivity.
   - destruct kids as [|k0 r0] eqn:Ek.
     + (* empty element *)
       cbn [is_nil]. norm.
@@ -335,8 +332,8 @@ Proof.
       pose proof (kids_flat level d kids (s "</" ++ X) Hne) as KF.
       unfold close_indent in KF. rewrite Ec in KF. rewrite KF. clear KF.
       destruct (kids_str_head level d kids (s "</" ++ X) Hne HLk) as (c2 & r2 & Eh & Hc2).
-      rewrite <- (escape_indent (S level)), <- escape_nl, app_assoc, <- escape_app.
+      rewrite <- (escape_indent (S level)), <- escape_nl, app_assoc, <- escape_text_app.
       rewrite Eh, (ptext_run _ c2 r2 Hc2), <- Eh.
       rewrite (pkids_print level d kids X HLk HP f) by lia.
-      subst X. rewrite pendtag_ok. rewrite ?escape_app, ?escape_indent, ?escape_nl. reflexivity.
+      subst X. rewrite pendtag_ok. rewrite ?escape_text_app, ?escape_indent, ?escape_nl. reflexivity.
 Qed.
